@@ -6,6 +6,36 @@ ROOT = "/verif"
 
 # id -> (technique, level text, level note, design ref)
 CLAIMED = {
+    "C01": (
+        "round-trip property testing (proptest) over typed packets of all 73 kinds obtained from reference images, hand constructors and text generators",
+        "encode(p0) must succeed, decode must consume the frame and render identically, re-encode must be byte-identical, in both size modes; p0 ranges over every wire-representable value of every kind (entropy-tape driven reference codec), hand-built packets for hand-written codecs / counted kinds, and caret-free multi-codepage text in each of the 30 text fields.",
+        "Trusted: Debug rendering as the equality observer (sets compared order-insensitively); the in-domain definition for text (worst-case encoded size within the field). Sampled exploration.",
+        "DESIGN.md §3 C01",
+    ),
+    "C03": (
+        "complete enumeration of element counts 0..255 and ASCII text lengths 0..2N per field and mode, plus proptest over decoded-origin packets (conformant, mutated, extended frames)",
+        "Every frame the encoder emits is checked for length % 4, range, size byte, count byte == elements following == typed length, and complete self-decoding to the same kind; packets obtained by decoding are re-encoded in both modes and must never panic the encoder.",
+        "Trusted: header/element sizes of the counted kinds from the spec transcription. Err and panic both count as 'refused loudly' for user-built packets.",
+        "DESIGN.md §3 C03",
+    ),
+    "C04": (
+        "framing-model oracle over complete enumerations (all size/type header pairs, every byte value in every enum/count/identifier position) and proptest-generated random / mutated buffers, with a counting allocator",
+        "No panic; Ok(None) only without a complete announced frame and with the buffer untouched; otherwise exactly the announced bytes removed, same result as the frame alone; announced < 4 is a framing error; peak allocation bounded by 64 KiB + 64 x input.",
+        "Trusted: framing model (10 lines), classification of insim::Error::IO as framing error. Coverage-guided fuzzing of the same oracle is in /verif/fuzz (thorough tier).",
+        "DESIGN.md §2.3, §3 C04",
+    ),
+    "C11": (
+        "complete sweep of ASCII text lengths 0..2N+2 for every text field and mode + proptest multi-codepage text; byte-range oracle from the spec table",
+        "The text field's byte range in every encoded frame equals the encoded text cut to the field and NUL-padded; variable fields are 4-aligned and bounded; MST/MSX/MSL/MTC end in NUL for every text; decoding stops at the first NUL.",
+        "Trusted: field offsets/widths from spec/insim9.spec; to_lossy_bytes as the definition of 'encoded text' (C10 checks it).",
+        "DESIGN.md §3 C11",
+    ),
+    "C15": (
+        "complete enumeration of all 16-bit time values and all 256 race-length bytes, Laps/Hours 0..2000; proptest boundary-biased 32-bit values and Durations; reference arithmetic model",
+        "Wire value w decodes to w x scale and re-encodes to w; a Duration encodes as floor(d / resolution) or is refused when out of range; race lengths follow the reference mapping or fall back to practice / an error.",
+        "Trusted: scales and offsets from spec/insim9.spec (SMALL_SSP/SSG scale taken from the crate, ?unit).",
+        "DESIGN.md §3 C15",
+    ),
     "C02": (
         "differential testing against an independent table-driven reference codec (systematic one-hot enumeration + proptest-generated full assignments)",
         "Every packet kind, field, enumerant, flag bit and boundary value of the specification transcription is exercised one-hot in both size modes, then random full assignments; the decoder must show the specified value at each typed field and the encoder must reproduce the reference image byte for byte. Catches symmetric reader/writer deviations that round-trip perfectly.",
